@@ -108,7 +108,7 @@ def gen_config(rng, small=False):
     cfg = {
         'n': n,
         'target': target,
-        'y0': {'r': rng.randint(1, 3), 'seed': rng.randrange(1 << 30)},
+        'y0': {'r': rng.randint(1, 3), 'seed': rng.randrange(1 << 30), 'kind': 'generic' if small else rng.choice(['generic', 'generic', 'generic', 'doubled', 'squared', 'warm'])},
         'dr_min': dr_min,
         'dr_max': dr_max,
         'tau': rng.choice([1.01, 1.1, 1.1, 1.5, 2.0]),
@@ -211,6 +211,29 @@ def materialise(cfg):
         # a single-precision objective: the tensor it defines is the table rounded to float32
         T = T.astype(np.float32).astype(np.float64)
     Y0 = make_tt(n, cfg['y0']['r'], cfg['y0']['seed'], dist='uniform')
+    yk = cfg['y0'].get('kind', 'generic')
+    if yk == 'doubled':
+        # A + A without rounding: block cores, every unfolding is rank deficient
+        Z = []
+        for k, G in enumerate(Y0):
+            if k == 0:
+                Z.append(np.concatenate([G, G], axis=2))
+            elif k == len(Y0) - 1:
+                Z.append(np.concatenate([G, G], axis=0))
+            else:
+                top = np.concatenate([G, np.zeros_like(G)], axis=2)
+                bot = np.concatenate([np.zeros_like(G), G], axis=2)
+                Z.append(np.concatenate([top, bot], axis=0))
+        Y0 = Z
+    elif yk == 'squared':
+        # the elementwise square without rounding (Kronecker cores): symmetric, rank deficient unfoldings
+        Y0 = [np.einsum('aib,cid->acibd', G, G).reshape(G.shape[0] ** 2, G.shape[1], G.shape[2] ** 2) for G in Y0]
+    elif yk == 'warm':
+        # a warm start: the (over-ranked) result of an earlier run on the same table
+        tab = T
+        Yw = teneva.cross(lambda I: tab[tuple(I.T)], Y0, nswp=2, dr_min=1, dr_max=2)
+        if all(np.all(np.isfinite(G)) for G in Yw) and max(G.shape[2] for G in Yw) <= 12:
+            Y0 = Yw
     I_vld = y_vld = None
     if cfg.get('vld'):
         g = gen(cfg['vld']['seed'])
@@ -582,17 +605,17 @@ def argcombo_runs(scen, world, V, stats):
     yv = T[tuple(Iv.T)]
     runs = 0
     for mask in range(16):
-        for with_data in (False, True):
+        for with_data in (False, True, 'I_only'):
             sa = {'m': 40 if mask & 1 else None, 'e': 1e-6 if mask & 2 else None,
                   'nswp': 2 if mask & 4 else None, 'e_vld': 1e-6 if mask & 8 else None,
-                  'I_vld': Iv if with_data else None, 'y_vld': yv if with_data else None}
+                  'I_vld': Iv if with_data else None, 'y_vld': yv if with_data is True else None}
             plan = {'m': sa['m'], 'cb_at': 3, 'args': {k: (v if not isinstance(v, np.ndarray) else 'data') for k, v in sa.items()}}
             c2 = dict(cfg, e=sa['e'], nswp=sa['nswp'], e_vld=sa['e_vld'], log=False)
             o = run_once(c2, world, plan, stop_args={'I_vld': sa['I_vld'], 'y_vld': sa['y_vld']}, keep_tensors=False)
             runs += 1
             tag = 'stop-arguments %s data=%s' % ({k: v for k, v in plan['args'].items() if k in ('m', 'e', 'nswp', 'e_vld')}, with_data)
             usable = (sa['m'] is not None or sa['e'] is not None or sa['nswp'] is not None
-                      or (sa['e_vld'] is not None and with_data))
+                      or (sa['e_vld'] is not None and with_data is True))
             if not usable:
                 if not isinstance(o.exc, ValueError):
                     V.append(viol('C06', 'missing-criteria', '%s: expected ValueError, got %s'
@@ -602,7 +625,7 @@ def argcombo_runs(scen, world, V, stats):
                 else:
                     stats['probe.valueerror_rejected'] = stats.get('probe.valueerror_rejected', 0) + 1
                 continue
-            if isinstance(o.exc, ValueError) and sa['e_vld'] is not None and not with_data:
+            if isinstance(o.exc, ValueError) and sa['e_vld'] is not None and with_data is not True:
                 # e_vld without a validation set while another criterion is present: rejecting is documented behaviour
                 if o.f.calls != 0:
                     V.append(viol('C06', 'missing-criteria', '%s: ValueError after %d objective calls' % (tag, o.f.calls), plan))
